@@ -220,7 +220,7 @@ impl Scenario for C08 {
         vmh::build_prototypes(true, true);
     }
     fn default_runs(&self, thorough: bool) -> u64 {
-        if thorough { 300_000 } else { 4_000 }
+        if thorough { 300_000 } else { 6_000 }
     }
     fn timeout_ms(&self) -> u64 {
         30_000
